@@ -495,6 +495,36 @@ func runC19(c *Cfg) {
 		cs := &CfgCase{Family: "random", Batch: i%2 == 0, Seq: seq, Split: rg.IntN(l + 1)}
 		runCfg(c, cs)
 	})
+	// last setting wins also AFTER the node has been run: concurrency / retries re-configured between two runs of
+	// the same batch node (builder method or option applied to its BaseNode), second run gated
+	reIdx := 0
+	for _, c1 := range []int{4, 1, 3} {
+		for _, c2 := range []int{2, 5} {
+			for _, via := range []string{"builder", "option"} {
+				n := 2*c2 + 2
+				it := make([]ItemScript, n)
+				for j := range it {
+					it[j].K = 1 + (j%3)/2*3 // every third item fails all attempts
+				}
+				bc := &BatchCase{Family: "c19-reconfigured-after-run", N: n, C: c2, Budget: 2, Items: it, Shape: "results", Build: "builder", ExecStyle: "result", Gated: true, Policy: "random", PSeed: uint64(reIdx),
+					Prelude: &Prelude{N: c1 + 1, Items: make([]ItemScript, c1+1), Budget: 3, C: c1, ReVia: via}}
+				reIdx++
+				o := runBatchCase(bc)
+				r.Eval()
+				if o.Incon != "" {
+					r.Incon(o.Incon)
+					continue
+				}
+				r.Count("reconfigured_after_run.cases", 1)
+				for _, f := range judgeBatch(bc, o) {
+					if f.Prop == "C08" || f.Prop == "C02" || f.Prop == "C07" {
+						r.Violate("C19", "C19:after-run:"+f.Key, fmt.Sprintf("node ran with concurrency %d / budget 3, was then re-configured to concurrency %d / budget 2 via %s and run again: %s", c1, c2, via, f.Detail), bc)
+					}
+				}
+				r.Nontrivial(fmt.Sprintf("re %d %d %s", c1, c2, via))
+			}
+		}
+	}
 	// pool size <= 0 means one worker (gated)
 	for _, w := range []int{0, -1, -7} {
 		pc := &PoolCase{Family: "c19-pool-default", Workers: w, Tasks: 5, Submitters: 1, Rounds: 1, Gated: true, Policy: "first"}
@@ -563,6 +593,20 @@ func runCfg(c *Cfg, cs *CfgCase) {
 }
 
 func replayC19(c *Cfg, spec json.RawMessage) {
+	if isBatchCase(spec) {
+		var bc BatchCase
+		_ = json.Unmarshal(spec, &bc)
+		o := runBatchCase(&bc)
+		b, _ := json.MarshalIndent(o, "", " ")
+		fmt.Println(string(b))
+		for _, f := range judgeBatch(&bc, o) {
+			if f.Prop == "C08" || f.Prop == "C02" || f.Prop == "C07" {
+				fmt.Printf(" * finding %s: %s\n", f.Key, f.Detail)
+				c.Rep.Violate("C19", "C19:after-run:"+f.Key, f.Detail, bc)
+			}
+		}
+		return
+	}
 	if isPoolCase(spec) {
 		var pc PoolCase
 		_ = json.Unmarshal(spec, &pc)
